@@ -235,7 +235,7 @@ def _regenerate_check(spec, ses):
 
     g = W.Generator(rw, ref_compute, families=fams, knob_space=W.knob_space_default(), max_ops=7 if spec.get("tier") == "quick" else 9,
                     pool_knobs=True, knob_prob=0.4)
-    g.generate()
+    g.generate(n_targets=rw.choice([1, 2]))  # same draws as generate(): the recipe must be the same one
     if found:
         o, sig, detail = found[0]
         return {"verdict": "violation", "oracle": o, "signature": sig, "detail": detail}
